@@ -534,7 +534,7 @@ func (fx *Fx) havocMods(st *State, ms *modSet) {
 			old := st.heap(k, srt)
 			st.havocHeap(k)
 			nw := st.heap(k, srt)
-			st.assume(fmt.Sprintf("(forall ((r!f Int)) (! (=> (<= r!f %s) (= (select %s r!f) (select %s r!f))) :pattern ((select %s r!f))))", st.alloc, nw, old, nw))
+			st.assume(fmt.Sprintf("(forall ((r!f Int)) (! (=> (and (< 0 r!f) (<= r!f %s)) (= (select %s r!f) (select %s r!f))) :pattern ((select %s r!f))))", st.alloc, nw, old, nw))
 		}
 	}
 	if ms.emits || ms.all {
